@@ -219,7 +219,7 @@ fn random_history(rng: &mut Rng, n: usize, cfg_b: bool, seed: u64) -> Vec<HistRu
 pub fn run_c15(opts: &Opts, cfg_b: bool) -> (Stats, Vec<String>, String) {
     let q = opts.tier == Tier::Quick;
     let deadline = Instant::now() + opts.time_cap;
-    let cases = ((if q { 60_000 } else { 1_500_000 }) as f64 * opts.scale) as u64;
+    let cases = ((if q { 300_000 } else { 3_000_000 }) as f64 * opts.scale) as u64;
     let seed = opts.seed;
     let total = par_for(opts.jobs, cases, 32, Some(deadline), |st: &mut Stats, i: u64, slot: &Slot| {
         let mut rng = Rng::new(mix(seed, i));
@@ -412,7 +412,7 @@ pub fn run_c20(opts: &Opts, cfg_b: bool) -> (Stats, Vec<String>, String) {
     total.add("exhaustive.max_n", max_n as u64);
     total.add("exhaustive.graphs", ngraphs);
 
-    let cases = ((if q { 60_000 } else { 1_500_000 }) as f64 * opts.scale) as u64;
+    let cases = ((if q { 200_000 } else { 3_000_000 }) as f64 * opts.scale) as u64;
     let rnd = par_for(opts.jobs, cases, 32, Some(deadline), |st: &mut Stats, i: u64, slot: &Slot| {
         let mut rng = Rng::new(mix(seed, i));
         let gp = GraphProfile::sched(if q { 6 } else { 9 });
@@ -446,6 +446,23 @@ pub fn run_c20(opts: &Opts, cfg_b: bool) -> (Stats, Vec<String>, String) {
         }
     });
     total.merge(rnd);
+    // phase 3: the same on real threads - k directors, each driving runs on ONE shared &FnGraph
+    // (natively here; the thorough tier repeats it under ThreadSanitizer and Miri)
+    let tcases = ((if q { 150 } else { 5_000 }) as f64 * opts.scale) as u64;
+    let thr = par_for(opts.jobs.min(4), tcases, 2, Some(deadline), |st: &mut Stats, i: u64, _slot: &Slot| {
+        let mut rng = Rng::new(mix(seed ^ 0x7468, i));
+        let gs = crate::threads::small_conflicting_graph(&mut rng, 7);
+        let (found, n) = crate::threads::threads_directors(&gs, mix(seed, i), 3, 4, cfg_b);
+        st.evaluations += n;
+        st.add("threads.runs_on_shared_graph", n);
+        st.count("threads.cases");
+        for mut v in found.into_iter().take(1) {
+            v.prop = "C20";
+            let case = v.detail.split(" | ").last().unwrap_or("").to_string();
+            st.violation(&v, case, String::new());
+        }
+    });
+    total.merge(thr);
     let mut floors = Vec::new();
     let c = |k: &str| total.counters.get(k).copied().unwrap_or(0);
     if c("cases_where_all_runs_were_active") == 0 || c("context_switches_between_runs") == 0 {
